@@ -388,8 +388,9 @@ theorem newDataLoop_linv (hd : Header) (views : List SegView) (v : VSock) (c : C
   | cons item rest ih =>
     unfold newDataLoop at hl
     split at hl
-    · simp only [pure, Except.pure, Except.ok.injEq, Prod.mk.injEq] at hl
-      rw [← hl.1]; exact h
+    · split at hl <;>
+      · simp only [pure, Except.pure, Except.ok.injEq, Prod.mk.injEq] at hl
+        rw [← hl.1]; exact h
     · have hitem := hv item List.mem_cons_self
       split at hl
       · simp [throw, throwThe, MonadExceptOf.throw] at hl
